@@ -122,6 +122,19 @@ func build(thorough bool) *material {
 	add("x25519/pkix", "PUBLIC KEY", must(x509.MarshalPKIXPublicKey(xk.PublicKey())))
 	p256ecdh, _ := ecs["p256"].ECDH()
 
+	// the RSA encodings are by far the most expensive to sweep: put them last so that a run
+	// cut short by its budget has seen every other key type
+	var rsaSrc, otherSrc []source
+	for _, s := range m.sources {
+		if strings.HasPrefix(s.name, "rsa") {
+			rsaSrc = append(rsaSrc, s)
+		} else {
+			otherSrc = append(otherSrc, s)
+		}
+	}
+	m.sources = otherSrc
+	defer func() { m.sources = append(m.sources, rsaSrc...) }()
+
 	// certificate chain: leaf, intermediate, root
 	var ders [][]byte
 	for _, c := range []string{certLeaf, certIntermediate, certRoot} {
@@ -500,7 +513,7 @@ func areas(thorough bool) []*guard.Area {
 			}
 		},
 	}
-	return []*guard.Area{bytesArea, jwkArea, rawArea}
+	return []*guard.Area{rawArea, jwkArea, bytesArea}
 }
 
 var crt = map[string]bool{"dp": true, "dq": true, "qi": true}
